@@ -22,6 +22,10 @@ type scen struct {
 	// extra: transactions the next block gets from a FOREIGN miner (core.VBuildOpts.ExtraTxs); set by
 	// block-content operations, consumed by opts()
 	extra []*types.Transaction
+	// forkPrimes: every prime-order block is mined as TWO siblings (same parents and content, other
+	// seal); the node makes the first its head, then switches to the second, which stays canonical.
+	// Whatever prime computes for a block (roll-ups, conversion repricing) is thereby computed twice.
+	forkPrimes bool
 }
 
 // opts hands the pending foreign transactions to the next build.
@@ -64,6 +68,29 @@ func (s *scen) close() { s.n.Close() }
 
 // mine appends one block of the given order built by the node's own worker.
 func (s *scen) mine(o core.VBuildOpts) (*types.WorkObject, error) {
+	if s.forkPrimes && o.Order == 0 && s.n.Cfg.Levels == 3 {
+		o1, o2 := o, o
+		o1.Salt, o2.Salt = o.Salt+1011, o.Salt+2023
+		p1, err := s.n.Build(o1)
+		if err != nil {
+			return nil, err
+		}
+		p2, err := s.n.Build(o2)
+		if err != nil {
+			return nil, err
+		}
+		if p1.Hash() == p2.Hash() {
+			return nil, fmt.Errorf("harness: sibling prime blocks are identical")
+		}
+		if r := s.n.Append(p1); r.Err() != nil {
+			return p1, core.VOwnBlockRejected{Err: r.Err()}
+		}
+		if r := s.n.Append(p2); r.Err() != nil {
+			return p2, core.VOwnBlockRejected{Err: fmt.Errorf("switch to the sibling prime block: %w", r.Err())}
+		}
+		s.blocks = append(s.blocks, p2)
+		return p2, nil
+	}
 	blk, err := s.n.Mine(o)
 	if err != nil {
 		return nil, err
